@@ -19,7 +19,7 @@ ENC = {
     # every bond order on a ring-closure digit / %nn label, at the opening end, the closing end or both
     "ringorders": ["C", "N", "1", "2", "=1", "#1", "#2", "%10", "#%10", "=%10", "(", ")", "-1"],
     "stereo": ["C", "[C@H]", "[C@@]", "/C", "\\C", "=C", "(", ")", "1", "2", "/1", "F", "[C@]"],
-    "bracket": ["[CH3]", "[13C]", "[N+]", "[O-]", "[Fe++]", "[C@@H]", "C", "=[N+]", "(", ")", "[H]", "[2H]", "[Se]", "[nH]"],
+    "bracket": ["[CH3]", "[13C]", "[N+]", "[O-]", "[Fe++]", "[C@@H]", "C", "=[N+]", "(", ")", "[H]", "[2H]", "[Se]", "[nH]", "[O--]", "[N---]"],
     "aro": ["c", "n", "[nH]", "o", "s", "C", "-c", ":c", "(", ")", "1", "2", "[n+]", "=O"],
     "aro2": ["c", "c", "1", "2", "3", "(", ")", "[cH-]", "[c-]", "p", "[o+]", "[c]", "b", "n"],
     "caps": ["C", "=C", "#C", "N", "=N", "O", "=O", "[N+]", "[O-]", "(", ")", "[CH2]", "F", "P", "S", "=S"],
